@@ -281,6 +281,10 @@ namespace bxdecay0 {
         if (!fin) {
           throw std::runtime_error("bxdecay0::event_reader::load_next_event: Invalid/corrupted particle format!");
         }
+        if (partCode != GAMMA and partCode != POSITRON and partCode != ELECTRON
+            and partCode != NEUTRON and partCode != PROTON and partCode != ALPHA) {
+          throw std::runtime_error("bxdecay0::event_reader::load_next_event: Invalid particle code!");
+        }
         particle part;
         part.set_code(static_cast<particle_code>(partCode));
         part.set_time(partTime);
